@@ -219,3 +219,53 @@ def bip373_nonces(ex, n):
     _pm.session_context(_P(), 0, b"\x02" + b"\x66" * 32)
     got = seen.get("nonces", [])
     return {"one_nonce_per_list_position_in_order": sand(len(got) == n, *[got[i][0] == 0xA0 + ids[i] for i in range(min(n, len(got)))]) if len(got) == n else False}
+
+
+# ------------------------------------------------------------------ BIP327 PartialSigVerify: the scalar the signer's key is multiplied by
+@ob("C16", "musig2_partial_sig_verify_key_scalar_is_bip327", quick=[dict()],
+    bound="session value b symbolic over 0..n-1, gacc symbolic over its two possible values {1, n-1}, parities of Q and of R symbolic, e and the key aggregation coefficient a fixed 256-bit constants: the Python arm of partial_sig_verify_ multiplies the signer's key "
+          "by e*a*g' with g' = g*gacc mod n, g = 1 for an even-y Q and n-1 otherwise, negates the effective nonce exactly when R has odd y, and multiplies the second nonce by b",
+    stubs=["session_values, _cpoint, _session_key_agg_coeff, mult, secp256k1.add_var / negate are abstract (they record their operands)"],
+    functions=["btclib.ecc.musig2.partial_sig_verify_"], timeout=600, min_ok=1)
+def partial_sig_verify_scalar(ex):
+    ex.merge_conditionals()
+    ex.prefer_int()
+    # gacc is a product of +-1 factors (BIP327): 1 or n-1; e and a are fixed 256-bit constants so that e*a*g' stays linear in what is symbolic
+    e_ = 0x3C9F5D2A8E1B47C6A0F3E2D1C4B5A69788776655443322110FEDCBA987654321 % N
+    a_ = 0x7A1B2C3D4E5F60718293A4B5C6D7E8F9FEDCBA98765432100123456789ABCDEF % N
+    b_ = ex.int("b", 0, N - 1)
+    gacc_ = ite(ex.bool("gacc_negative"), N - 1, 1)
+    q_odd, r_odd = ex.int("q_odd", 0, 1), ex.int("r_odd", 0, 1)
+    s_bytes = ex.bytes("s", 32)
+
+    class _V:
+        R = (77, 2 + r_odd)
+        Q = (5, 2 + q_odd)
+        e, b, gacc = e_, b_, gacc_
+    mults, negs = [], []
+    ex.stub(musig2.session_values, lambda ctx: _V)
+    ex.stub(musig2._cpoint, lambda octets: ("pt", bytes(octets)[:1]))
+    ex.stub(musig2._session_key_agg_coeff, lambda ctx, pk: a_)
+    ex.stub(musig2.mult, lambda m, Q=None, ec=None: mults.append((m, Q)) or ("mul", len(mults)))
+    ex.stub(secp256k1.add_var, lambda A, B: ("add", A, B), owner=secp256k1, attr="add_var")
+    ex.stub(secp256k1.negate, lambda A: negs.append(A) or ("neg", A), owner=secp256k1, attr="negate")
+
+    class _Ctx:
+        msg = b"x" * 5
+        adaptor = None
+    try:
+        musig2.partial_sig_verify_(s_bytes, b"\x02" + b"\x11" * 32 + b"\x03" + b"\x12" * 32, b"\x02" + b"\x13" * 32, _Ctx())
+    except BTClibValueError:
+        return ex.refuse("BTClibValueError")
+    s_int = int.from_bytes(s_bytes, "big")
+    if s_int >= N:
+        return {"out_of_range_partial_signature_is_false_before_any_point_work": len(mults) == 0}
+    g = ite((2 + q_odd) % 2 == 0, 1, N - 1)
+    g2 = g * gacc_ % N
+    want = e_ * a_ * g2 % N
+    key_mults = [m for m, Q in mults if Q == ("pt", b"\x02") and m is not s_int]
+    return {"three_multiplications": len(mults) == 3,
+            "second_nonce_times_b": mults[0][0] == b_ if mults else False,
+            "nonce_negated_iff_R_odd": (len(negs) == 1) == bool((2 + r_odd) % 2 != 0),
+            "key_scalar_is_e_a_g_gacc": mults[2][0] == want if len(mults) == 3 else False,
+            "generator_times_s": mults[1][0] == s_int if len(mults) == 3 else False}
